@@ -35,6 +35,8 @@ unsafe impl<T: ?Sized + Send> Sync for Mutex<T> {}
 
 pub struct MutexGuard<'a, T: ?Sized + 'a> {
     m: &'a Mutex<T>,
+    /// was the thread already panicking when the lock was taken? (std's poison::Guard)
+    panicking_at_lock: bool,
 }
 
 impl<T> Mutex<T> {
@@ -64,7 +66,7 @@ impl<T: ?Sized> Mutex<T> {
     }
     pub fn lock(&self) -> LockResult<MutexGuard<'_, T>> {
         self.acquire();
-        let g = MutexGuard { m: self };
+        let g = MutexGuard { m: self, panicking_at_lock: std::thread::panicking() };
         if self.poisoned.load(Ordering::SeqCst) {
             Err(PoisonError::new(g))
         } else {
@@ -93,7 +95,7 @@ impl<'a, T: ?Sized> DerefMut for MutexGuard<'a, T> {
 }
 impl<'a, T: ?Sized> Drop for MutexGuard<'a, T> {
     fn drop(&mut self) {
-        if std::thread::panicking() {
+        if !self.panicking_at_lock && std::thread::panicking() {
             self.m.poisoned.store(true, Ordering::SeqCst);
         }
         self.m.release();
@@ -153,7 +155,7 @@ impl Condvar {
             }
             rt.block(me, Res::Mutex(m.id), None);
         }
-        (MutexGuard { m }, w)
+        (MutexGuard { m, panicking_at_lock: false }, w)
     }
 
     pub fn wait<'a, T>(&self, guard: MutexGuard<'a, T>) -> LockResult<MutexGuard<'a, T>> {
